@@ -506,6 +506,12 @@ func TestC12Restart(t *testing.T) {
 		} else {
 			us = us.Domain()
 		}
+		// one case in four goes through the convenience constructor of its kind
+		// (NewClientSession: the server is the domain of the own address)
+		wrapper := rapid.IntRange(0, 3).Draw(rt, "wrapper") == 0
+		if wrapper && !recv && !s2s {
+			them = us.Domain()
+		}
 		// second header: which address changes ("resource": the initiating
 		// entity's address differs in nothing but the resourcepart)
 		change := rapid.SampledFrom([]string{"none", "none", "from", "to", "dropfrom", "dropto", "both", "resource", "shift"}).Draw(rt, "change")
@@ -538,7 +544,7 @@ func TestC12Restart(t *testing.T) {
 		}
 		decoysInHeaders = rapid.IntRange(0, 2).Draw(rt, "decoys") == 0
 		defer func() { decoysInHeaders = false }()
-		desc := fmt.Sprintf("restart recv=%v s2s=%v us=%s them=%s second-header-change=%s second-header-defect=%s qualified-look-alike-attributes=%v", recv, s2s, us, them, change, defect, decoysInHeaders)
+		desc := fmt.Sprintf("restart recv=%v s2s=%v convenience-constructor=%v us=%s them=%s second-header-change=%s second-header-defect=%s qualified-look-alike-attributes=%v", recv, s2s, wrapper, us, them, change, defect, decoysInHeaders)
 		ev.Case(true, desc, "restart", "restart-"+change, "restart-defect-"+defect)
 		fail := func(format string, args ...any) {
 			rt.Helper()
@@ -631,9 +637,16 @@ func TestC12Restart(t *testing.T) {
 		var s *xmpp.Session
 		var err error
 		if p := ev.Guard(func() {
-			if recv {
+			switch {
+			case wrapper && recv:
+				s, err = xmpp.ReceiveClientSession(context.Background(), us, peer.Conn, feat)
+			case wrapper && s2s:
+				s, err = xmpp.NewServerSession(context.Background(), them, us, peer.Conn, feat)
+			case wrapper:
+				s, err = xmpp.NewClientSession(context.Background(), us, peer.Conn, feat)
+			case recv:
 				s, err = xmpp.ReceiveSession(context.Background(), peer.Conn, state, neg)
-			} else {
+			default:
 				s, err = xmpp.NewSession(context.Background(), them, us, peer.Conn, state, neg)
 			}
 		}); p != "" {
